@@ -373,6 +373,28 @@ type runner struct {
 
 	judgeEvery int
 	judgedKeys map[string]bool
+	pending    []pendingCase
+}
+
+// cases are buffered with an estimate of their evaluation cost inside Coq and handed to the sharded
+// writer heaviest first, so that round-robin sharding spreads the expensive ones (64 KiB Keccak,
+// secp256k1 recovery) over all shards
+type pendingCase struct {
+	term string
+	desc interface{}
+	cost float64
+}
+
+func (rn *runner) add(term string, desc interface{}, cost float64) {
+	rn.pending = append(rn.pending, pendingCase{term, desc, cost})
+}
+
+func (rn *runner) flush() error {
+	sort.SliceStable(rn.pending, func(i, j int) bool { return rn.pending[i].cost > rn.pending[j].cost })
+	for _, p := range rn.pending {
+		rn.w.Add(p.term, p.desc)
+	}
+	return rn.w.Flush()
 }
 
 func bucketLen(n int) string {
@@ -553,7 +575,7 @@ func (rn *runner) run(in *input) {
 		}
 		return "false"
 	}
-	judge := in.Judge || (in.Kind == kindKeyPair && rn.w.Count()%rn.judgeEvery == 0)
+	judge := in.Judge || (in.Kind == kindKeyPair && len(rn.pending)%rn.judgeEvery == 0)
 	if judge && in.Kind == kindKeyPair {
 		st.Hit("signature judged by Secp256k1Exec")
 		rn.judgedKeys[in.Key] = true
@@ -573,8 +595,12 @@ func (rn *runner) run(in *input) {
 	desc := map[string]interface{}{"input": in, "impl_class": cls, "impl_out": trunc(out), "impl_payload": trunc(pl),
 		"impl_hash": hex.EncodeToString(hash), "recover_class": rec.cls, "recover_addr": hex.EncodeToString(rec.addr),
 		"key_addr_lib": hex.EncodeToString(kaddr), "second_run_same": same2, "unmodified": unmod, "finalize_same": finsam}
-	rn.w.Add(term, desc)
-	if len(st.Samples) < 6 && (rn.w.Count()%37 == 1) {
+	cost := 0.15 + 0.05*float64(len(pl)+len(out))/136
+	if judge && in.Kind == kindKeyPair {
+		cost += 0.65
+	}
+	rn.add(term, desc, cost)
+	if len(st.Samples) < 6 && (len(rn.pending)%37 == 1) {
 		st.Samples = append(st.Samples, desc)
 	}
 }
@@ -772,7 +798,7 @@ func main() {
 		shards = 1
 	}
 	rn := &runner{w: cv.NewWriter(*out, "C01", header, "case", "mismatches", shards), st: st, seen: map[string]bool{},
-		cur: filepath.Join(*out, "current_case.json"), judgeEvery: 23, judgedKeys: map[string]bool{}}
+		cur: filepath.Join(*out, "current_case.json"), judgeEvery: 40, judgedKeys: map[string]bool{}}
 	if *tier == "thorough" {
 		rn.judgeEvery = 5
 	}
@@ -799,7 +825,7 @@ func main() {
 			os.Exit(0)
 		}
 		rn.run(rp.Case.Input)
-		rn.w.Flush()
+		rn.flush()
 		fmt.Println("implementation:", st.Distribution)
 		st.Evaluations = 1
 		st.Write(filepath.Join(*out, "stats_C01.json"))
@@ -828,7 +854,7 @@ func main() {
 		}
 		for _, k := range keys {
 			in := baseInput(mode, 1337, k, "mode x key")
-			in.Judge = true
+			in.Judge = thorough || mode == modeEIP155 || mode == modeEIP1559
 			rn.run(in)
 		}
 	}
@@ -1031,7 +1057,7 @@ func main() {
 	}
 
 	// --- 8. random transactions ---
-	nRand := 200
+	nRand := 150
 	if thorough {
 		nRand = 3000
 	}
@@ -1055,11 +1081,11 @@ func main() {
 	sort.Strings(jk)
 	for _, k := range jk {
 		kb, _ := hex.DecodeString(k)
-		rn.w.Add(fmt.Sprintf("CKey %s %s", coqZ(new(big.Int).SetBytes(kb)), cv.CoqBytes(libAddress(kb))),
-			map[string]interface{}{"key": k, "lib_address": hex.EncodeToString(libAddress(kb)), "why": "address of the key: library vs Secp256k1Exec"})
+		rn.add(fmt.Sprintf("CKey %s %s", coqZ(new(big.Int).SetBytes(kb)), cv.CoqBytes(libAddress(kb))),
+			map[string]interface{}{"key": k, "lib_address": hex.EncodeToString(libAddress(kb)), "why": "address of the key: library vs Secp256k1Exec"}, 0.45)
 		st.Hit("key address judged by Secp256k1Exec")
 	}
-	if err := rn.w.Flush(); err != nil {
+	if err := rn.flush(); err != nil {
 		panic(err)
 	}
 	os.Remove(rn.cur)
